@@ -52,6 +52,31 @@ type Case struct {
 	Why     []string    `json:"malformed_because,omitempty"` // by construction
 	Mutated bool        `json:"mutated,omitempty"`
 	Chunked bool        `json:"chunked,omitempty"` // body sent with Transfer-Encoding: chunked: the handler sees ContentLength -1
+	// Prelude: indices into the valid base requests of the same server, served by the same handler before the request
+	// under test: what an earlier, accepted request left behind must not make a malformed one acceptable
+	Prelude []int `json:"prelude,omitempty"`
+}
+
+func rawRequest(method, path string, hdr [][2]string, body string, chunked bool) (*http.Request, error) {
+	var raw strings.Builder
+	fmt.Fprintf(&raw, "%s %s HTTP/1.1\r\nHost: dav.example\r\n", method, cfs.EscapePath(path))
+	for _, kv := range hdr {
+		fmt.Fprintf(&raw, "%s: %s\r\n", kv[0], kv[1])
+	}
+	if chunked && len(body) > 0 {
+		raw.WriteString("Transfer-Encoding: chunked\r\n\r\n")
+		k := (len(body) + 1) / 2
+		for _, part := range []string{body[:k], body[k:]} {
+			if part != "" {
+				fmt.Fprintf(&raw, "%x\r\n%s\r\n", len(part), part)
+			}
+		}
+		raw.WriteString("0\r\n\r\n")
+	} else {
+		fmt.Fprintf(&raw, "Content-Length: %d\r\n\r\n", len(body))
+		raw.WriteString(body)
+	}
+	return http.ReadRequest(bufio.NewReader(strings.NewReader(raw.String())))
 }
 
 const (
@@ -179,26 +204,21 @@ func dev(kind, f string, a ...any) vev.Outcome {
 
 func evaluate(c Case) (vev.Outcome, error) {
 	w := build(c.Server)
-	var raw strings.Builder
-	fmt.Fprintf(&raw, "%s %s HTTP/1.1\r\nHost: dav.example\r\n", c.Method, cfs.EscapePath(c.Path))
-	for _, kv := range c.Hdr {
-		fmt.Fprintf(&raw, "%s: %s\r\n", kv[0], kv[1])
-	}
-	if c.Chunked && len(c.Body) > 0 {
-		// the same bytes without a declared length, in two chunks (after C13-s13: short cuts keyed on Content-Length)
-		raw.WriteString("Transfer-Encoding: chunked\r\n\r\n")
-		k := (len(c.Body) + 1) / 2
-		for _, part := range []string{string(c.Body[:k]), string(c.Body[k:])} {
-			if part != "" {
-				fmt.Fprintf(&raw, "%x\r\n%s\r\n", len(part), part)
+	if len(c.Prelude) > 0 {
+		bs := bases(c.Server)
+		for _, k := range c.Prelude {
+			b := bs[k%len(bs)]
+			body := b.text
+			if b.doc != nil {
+				body = string(vx.Write(b.doc, vx.Fixed(0), false))
+			}
+			if preq, err := rawRequest(b.method, b.path, b.hdr, body, false); err == nil {
+				cfs.Serve(w.h, preq)
 			}
 		}
-		raw.WriteString("0\r\n\r\n")
-	} else {
-		fmt.Fprintf(&raw, "Content-Length: %d\r\n\r\n", len(c.Body))
-		raw.WriteString(string(c.Body))
 	}
-	req, err := http.ReadRequest(bufio.NewReader(strings.NewReader(raw.String())))
+	before := len(w.mutating())
+	req, err := rawRequest(c.Method, c.Path, c.Hdr, string(c.Body), c.Chunked)
 	if err != nil {
 		return vev.Outcome{}, nil // net/http refuses it before any handler
 	}
@@ -324,7 +344,7 @@ func evaluate(c Case) (vev.Outcome, error) {
 	if resp.Status < 400 || resp.Status > 499 {
 		return dev(cls+"|malformed-not-4xx|"+why[0], "%s %s is malformed (%v) but was answered %d (%.200q)\nheaders %v\nbody %.400q", c.Method, c.Path, why, resp.Status, resp.Body, c.Hdr, string(c.Body)), nil
 	}
-	if m := w.mutating(); len(m) > 0 {
+	if m := w.mutating()[before:]; len(m) > 0 {
 		return dev(cls+"|malformed-reached-backend|"+why[0], "%s %s is malformed (%v), answered %d, but the backend saw %v", c.Method, c.Path, why, resp.Status, m), nil
 	}
 	return vev.Outcome{}, nil
@@ -837,6 +857,22 @@ func run(t *testing.T, rt *rapid.T, c Case, class string) {
 	}
 	if c.Chunked {
 		rec.Count("body-without-declared-length", 1)
+	}
+	if len(c.Prelude) == 0 && !c.Chunked {
+		if rt != nil {
+			if rapid.IntRange(0, 2).Draw(rt, "prelude?") == 0 {
+				c.Prelude = rapid.SliceOfN(rapid.IntRange(0, 99), 1, 2).Draw(rt, "prelude")
+			}
+		} else if os.Getenv("VERIF_REPLAY") == "" && len(c.Why) > 0 {
+			defer func() { // enumerators: every definitely malformed request once more after an accepted request
+				h := vev.Hash(mustJSON(c))
+				c.Prelude = []int{int(h % 97), int(h / 97 % 89)}
+				run(t, nil, c, class+"/after-earlier-requests")
+			}()
+		}
+	}
+	if len(c.Prelude) > 0 {
+		rec.Count("after-earlier-requests-on-the-same-handler", 1)
 	}
 	rec.Case(class, c.Mutated && len(c.Body) > 0, mustJSON(c), func() any {
 		s := c
